@@ -481,6 +481,19 @@ class LinalgProxy:
             raise Unsupported("symbolic matrix inverse beyond 2x2")
         return _np.linalg.inv(a)
 
+    def det(self, a):
+        if _has_sym(a):
+            a = _np.asarray(a, dtype=object)
+            if a.shape == (1, 1):
+                return a[0, 0]
+            if a.shape == (2, 2):
+                return a[0, 0] * a[1, 1] - a[0, 1] * a[1, 0]
+            if a.shape == (3, 3):
+                return (a[0, 0] * (a[1, 1] * a[2, 2] - a[1, 2] * a[2, 1]) - a[0, 1] * (a[1, 0] * a[2, 2] - a[1, 2] * a[2, 0])
+                        + a[0, 2] * (a[1, 0] * a[2, 1] - a[1, 1] * a[2, 0]))
+            raise Unsupported("symbolic determinant beyond 3x3")
+        return _np.linalg.det(a)
+
 
 # --------------------------------------------------------------------------------------
 # RNG model
